@@ -392,9 +392,9 @@ func c13Variant(label, options string, zeroReq bool) *Prop {
 
 func init() {
 	register(&Prop{
-		ID:        "C13",
-		Functions: []string{"generated Write/Read with with_field_mask (FieldWriteMap/Set/List, FieldReadMap/Set/List, Set_FieldMask propagation) for the corpus fm.thrift", "fieldmask.NewFieldMask, (*FieldMask).Field/Int/Str/All/Exist", "thrift_reflection.RegisterAST and descriptor lookups", "generator/golang/thrift.go ZeroWriter output (exercised through the generated code)"},
-		Bounds:    "root struct with required/optional scalars, nested struct, list<struct>, map<string,struct>, map<i32,string>, set<string>, required struct; 12 designed path lists (field by id, list indices incl. out of range, string and int keys present and absent, '*' over elements, nested combinations) x white/black; all scalar leaves of the value symbolic (full width), 2 list elements, 2 map entries with concrete keys; configurations: default, field_mask_halfway, field_mask_zero_required",
+		ID:          "C13",
+		Functions:   []string{"generated Write/Read with with_field_mask (FieldWriteMap/Set/List, FieldReadMap/Set/List, Set_FieldMask propagation) for the corpus fm.thrift", "fieldmask.NewFieldMask, (*FieldMask).Field/Int/Str/All/Exist", "thrift_reflection.RegisterAST and descriptor lookups", "generator/golang/thrift.go ZeroWriter output (exercised through the generated code)"},
+		Bounds:      "root struct with required/optional scalars, nested struct, list<struct>, map<string,struct>, map<i32,string>, set<string>, required struct; 12 designed path lists (field by id, list indices incl. out of range, string and int keys present and absent, '*' over elements, nested combinations) x white/black; all scalar leaves of the value symbolic (full width), 2 list elements, 2 map entries with concrete keys; configurations: default, field_mask_halfway, field_mask_zero_required",
 		Assumptions: []string{"the path lists are designed (sampled); values are solver-decided", "descriptors come from thrift_reflection.RegisterAST on the same IDL text; the embedded descriptor bytes of *-reflection.go (gzip+meta) are not executed (BuildFileDescriptor is stubbed)", "map keys are concrete so that mask lookups by key do not fork"},
 		Variants: []*Prop{
 			c13Variant("default", "with_reflection,with_field_mask", false),
